@@ -7,8 +7,8 @@ from gen import c15_dimchecks
 from gen import c15_members
 
 ID = "C15"
-PROPS_FILES = ["Gama/Props/C15.lean"]
-LEAN_TARGETS = ["Gama.Props.C15"]
+PROPS_FILES = ["Gama/Props/C15.lean", "Gama/Props/C15SvdDecompose.lean"]
+LEAN_TARGETS = ["Gama.Props.C15", "Gama.Props.C15SvdDecompose"]
 DRIVERS = ["drv_matvec"]
 RULE = ("object scripts: random histories of ctor/copy/move/assign/move-assign/resize(reset)/write/fill/transpose/dtor "
         "on 8 slots of MemRep, Vec, Mat, SymMat with sizes 0..4 (plus every ordered size pair for b=a then write); "
@@ -32,16 +32,22 @@ LEVEL_TEXT = ("Lean 4 theorems for all sizes and all operation histories: the he
               "checked read of the model stays inside the operands (false, with a witness, only for Vec*TransMat); Mat::invert (Gauss-Jordan "
               "with full pivoting and the permutation undo) returns a two-sided inverse whenever it does not throw; "
               "SymMat::cholDec/solve reproduce and solve (square-root law witnessed jointly over R); SymMat::invert on a positive "
-              "definite matrix meets only positive pivots, does not throw and returns the two-sided inverse; pinv satisfies the four Moore-Penrose conditions given an SVD "
-              "certificate that is evaluated per run for tall, square, wide and rank-deficient matrices. "
+              "definite matrix meets only positive pivots, does not throw and returns the two-sided inverse; the model of SVD::svd returns a "
+              "decomposition that reconstructs A with orthonormal factors whenever it returns (any shape), and pinv built from it "
+              "satisfies the four Moore-Penrose conditions when the dropped singular values are exact zeros (for double: the "
+              "certificate is evaluated per run for tall, square, wide and rank-deficient matrices). "
               "Models tied to lib/matvec by a translator (guards) and differential correspondence (exact rational and IEEE double "
               "instances of the same definitions) and an always-on property oracle on the C++ answers.")
 LEVEL_NOTE = ("Trusted: Lean kernel, statements in Props/C15.lean, harness/generator/comparator. The operators whose faithful "
               "model violates the property (TransMat±TransMat, TransMat*TransMat non-square, TransVec*MatBase, Vec*TransMat, "
               "SymMat*SymMat, memcpy(nullptr,..,0) on empty copies) are proved to violate it on a witness and reported as "
-              "findings. SVD::svd itself (Golub-Reinsch iteration) is not modelled: its output enters pinv_moore_penrose as a "
-              "certificate (A = U W V^T, V^T V = 1, U^T U = 1 on kept columns, dropped singular values negligible) checked "
-              "numerically on every run.")
+              "findings. SVD::svd (Golub-Reinsch) is modelled statement by statement as Svd.decompose (Model/Ls/Svd/Decomp.lean; "
+              "executed next to the C++ by drv_ls in C01's check, not in this one) and proved to return a factorisation whenever "
+              "it returns, for tall, square and wide A (Props/C15SvdDecompose.lean: C15_svd_reconstructs - A = U W V^T, V^T V = 1, "
+              "U^T U = 1 on the columns with W != 0, W >= 0; C15_pinv_moore_penrose_svd - pinv from those factors is the "
+              "Moore-Penrose inverse provided every singular value set_inv_W drops is an exact zero). Not proved: convergence of "
+              "the QR iteration (NoConvergence after 30 sweeps) and rounding: for double the certificate (A = U W V^T, V^T V = 1, "
+              "U^T U = 1 on kept columns, dropped singular values negligible) is still evaluated on the C++'s own U, W, V on every run.")
 TECHNIQUE = ("Lean 4 proof (refinement + invariant by induction over operation histories; entrywise algebra; loop invariants of "
              "Gauss-Jordan, Cholesky and the symmetric exchange inversion; Moore-Penrose from an SVD certificate) + translator "
              "(dimension guards, data members of Mat and the initialisation of Mat::pentry regenerated from the headers) + correspondence")
@@ -49,8 +55,11 @@ TRUSTED = ["harness/c15_matvec.cpp: counting replacements of operator new[]/dele
            "(observation only; the wrapper does not forward a null pointer)"]
 MODELLED = ["IEEE rounding (theorems over ordered fields; Float instance compared with tolerance)",
             "indeterminate content of new Float[n] (model: a fixed placeholder; never observed before written)",
-            "SVD::svd (Golub-Reinsch iteration): per-run certificate only (all shapes incl. wide); pinv: formula modelled "
-            "from (U,W,V,W_tol), run next to the C++ on the C++'s own decomposition; Moore-Penrose proved from the certificate",
+            "SVD::svd (Golub-Reinsch iteration): in THIS check per-run certificate on the C++'s factors (all shapes incl. wide); "
+            "its model Svd.decompose is tied by C01's drv_ls stream, its algebra proved (C15_svd_reconstructs), convergence and "
+            "rounding not; pinv: formula modelled from (U,W,V,W_tol), run next to the C++ on the C++'s own decomposition; "
+            "Moore-Penrose proved from the certificate (pinv_moore_penrose) and for the factors decompose returns "
+            "(C15_pinv_moore_penrose_svd)",
             "std::sort (sortvec.h), iostream operators, GSO (gso.h, exercised through C01/C02)",
             "negative dimensions passed to resize/reset/constructors other than MemRep(n<0)",
             "Mat object after invert() threw Singular (left half eliminated in place): the model stops the history there; "
